@@ -278,6 +278,54 @@ theorem stream_length (p : List Event × Term) : (stream p).length ≤ p.1.lengt
 
 theorem VV.init_beq : (({} : VV).beq {}) = true := by decide
 
+
+/-! ## streams that agree event by event (the same tokens in any spelling, the same layout of bodies) -/
+
+/-- Two stream items agree: both error items, or events that compare equal. -/
+def itemAgree : SItem → SItem → Bool
+  | .ev e, .ev f => e.beq f
+  | .bad, .bad => true
+  | _, _ => false
+
+/-- Two streams agree item by item. -/
+def streamsAgree : List SItem → List SItem → Bool
+  | [], [] => true
+  | x :: a, y :: b => itemAgree x y && streamsAgree a b
+  | _, _ => false
+
+theorem cmpLoop_agree (fuel : Nat) (v : VV) (a b : List SItem) (hf : a.length < fuel) (hv : v.beq v = true)
+    (h : streamsAgree a b = true) : cmpLoop fuel v v a b = none ∨ cmpLoop fuel v v a b = some true := by
+  induction fuel generalizing v a b with
+  | zero => omega
+  | succ n ih =>
+    cases a with
+    | nil =>
+      cases b with
+      | nil => simp [cmpLoop, hv]
+      | cons y rb => simp [streamsAgree] at h
+    | cons x ra =>
+      cases b with
+      | nil => simp [streamsAgree] at h
+      | cons y rb =>
+        simp only [streamsAgree, Bool.and_eq_true] at h
+        cases x with
+        | bad => cases y <;> simp [itemAgree] at h <;> simp [cmpLoop]
+        | ev e =>
+          cases y with
+          | bad => simp [itemAgree] at h
+          | ev f =>
+            have hef : e.beq f = true := by simpa [itemAgree] using h.1
+            simp only [cmpLoop, hef, ↓reduceIte]
+            rw [← VV.feed_congr v e f hef]
+            rcases afterIter_self (v.feed e).1 with h' | h'
+            · rw [h']
+              exact ih _ ra rb (by simp at hf; omega) (afterIter_none _ _ h') h.2
+            · rw [h']; simp
+
+theorem incrementalCompare_agree (a b : List SItem) (h : streamsAgree a b = true) :
+    incrementalCompare a b = none ∨ incrementalCompare a b = some true :=
+  cmpLoop_agree _ _ _ _ (by omega) VV.init_beq h
+
 theorem incrementalCompare_refl (s : List SItem) :
     incrementalCompare s s = none ∨ incrementalCompare s s = some true :=
   cmpLoop_refl _ _ _ (by omega) VV.init_beq
@@ -290,11 +338,11 @@ theorem incrementalCompare_bad (a b : List SItem) (hb : SItem.bad ∈ a ∨ SIte
     incrementalCompare a b ≠ some true := cmpLoop_bad _ _ _ _ _ hb
 
 theorem compareRecon_refl (a : List Char) : compareRecon a a = true := by
-  unfold compareRecon
-  rcases incrementalCompare_refl (stream (events a)) with h | h <;> simp [h]
+  unfold compareRecon compareOf
+  rcases incrementalCompare_refl (stream (eventsOf (run a))) with h | h <;> simp [h]
 
 theorem compareRecon_symm (a b : List Char) : compareRecon a b = compareRecon b a := by
-  unfold compareRecon
+  unfold compareRecon compareOf
   rw [incrementalCompare_symm, beq_comm' a b]
 
 theorem compareRecon_invalid (a b : List Char) (h : (events a).2 ≠ .fin ∨ (events b).2 ≠ .fin) :
@@ -308,8 +356,11 @@ theorem compareRecon_invalid (a b : List Char) (h : (events a).2 ≠ .fin ∨ (e
       · exact Or.inl ((stream_bad _).2 h)
       · exact Or.inr ((stream_bad _).2 h)
     have := incrementalCompare_bad _ _ hb
-    unfold compareRecon
+    unfold compareRecon compareOf
     rw [hne]
+    change (match incrementalCompare (stream (events a)) (stream (events b)) with
+      | some r => r
+      | none => false) = false
     cases hc : incrementalCompare (stream (events a)) (stream (events b)) with
     | none => rfl
     | some r =>
